@@ -41,4 +41,7 @@ class SameID:
             "New tag definition: {}\n".format(cur)+
             "Group ID: {}".format(self.name))
       else:
+        # with the datatype it was defined with, not the default datatype
+        # for the value
+        self.set_datatype(tag, previous.get_datatype(tag))
         self.set(tag, prv)
